@@ -13,6 +13,7 @@
 -/
 import GoFlags.Ini
 import GoFlags.Lemmas.Trim
+import GoFlags.Props.C11
 
 namespace GoFlags.C12
 open GoFlags Bytes
@@ -310,4 +311,118 @@ example : IniKeyOK (B "Key") :=
 
 example : ({ (default : Env) with isPrintHi := fun _ => false } : Env).spacesNotPrintable := fun _ _ _ => rfl
 
+
+/-! ### Numbers: the written line reads back, the digits parse back -/
+
+
+/-- a value whose first and last bytes are ASCII and no white space (numbers, booleans, durations
+    as the writer renders them) -/
+structure PlainEnds (X : Bytes) : Prop where
+  ne : X ≠ []
+  first : ∀ c r, X = c :: r → c < 0x80 ∧ isAsciiSpace c = false ∧ c ≠ 0x22
+  last : ∀ i c, X = i ++ [c] → c < 0x80 ∧ isAsciiSpace c = false
+
+/-- **A value written verbatim reads back verbatim**: the line `key = X`, for any X with plain
+    ends, is read as the entry (key, X), unquoted. -/
+theorem plain_value_line_reads_back (file : Bytes) (f : IniFile) (cur name X : Bytes) (n : Nat)
+    (hk : IniKeyOK name) (hX : PlainEnds X) :
+    readIniLine file (f, cur) n (name ++ B " = " ++ X) = .ok (iniAddEntry f cur ⟨name, X, false, n⟩, cur) := by
+  obtain ⟨c, r, hcr⟩ := List.exists_cons_of_ne_nil hX.ne
+  obtain ⟨hc1, hc2, hc3⟩ := hX.first c r hcr
+  obtain ⟨i, l, hil⟩ : ∃ i l, X = i ++ [l] := by
+    rcases List.eq_nil_or_concat X with h | ⟨i, l, h⟩
+    · exact absurd h hX.ne
+    · exact ⟨i, l, by simpa using h⟩
+  obtain ⟨hl1, hl2⟩ := hX.last i l hil
+  have htl : trimLeft X = X := by rw [hcr]; exact trimLeft_ascii_nonspace c r hc1 hc2
+  have htr : trimRight X = X := by rw [hil]; exact trimRight_ascii_nonspace i l hl1 hl2
+  have htr2 : trimRight (name ++ B " = " ++ X) = name ++ B " = " ++ X := by
+    rw [hil, ← List.append_assoc]; exact trimRight_ascii_nonspace _ l hl1 hl2
+  rw [readIniLine_key_value file f cur name X n hk htl htr2 htr hX.ne]
+  have : ¬ X.head? = some 0x22 := by rw [hcr]; simp [hc3]
+  simp only [this, if_false]
+
+theorem digitChar_plain (d : Nat) (h : d < 36) : digitChar d < 0x80 ∧ isAsciiSpace (digitChar d) = false ∧ digitChar d ≠ 0x22 := by
+  unfold digitChar isAsciiSpace
+  split <;> (refine ⟨by omega, ?_, by omega⟩; simp; omega)
+
+theorem natToBase_plainEnds (base : Nat) (hb : 2 ≤ base ∧ base ≤ 36) (n : Nat) : PlainEnds (natToBase base n) := by
+  have hmem : ∀ c ∈ natToBase base n, ∃ d, d < 36 ∧ c = digitChar d := by
+    induction n using Nat.strongRecOn with
+    | _ n ih =>
+      rw [natToBase]
+      have hnb : ¬ base < 2 := by omega
+      simp only [hnb, dite_false]
+      by_cases hlt : n < base
+      · simp only [hlt, dite_true]
+        intro c hc; simp at hc; exact ⟨n, by omega, hc⟩
+      · simp only [hlt, dite_false]
+        intro c hc
+        rcases List.mem_append.mp hc with hc | hc
+        · exact ih (n / base) (Nat.div_lt_self (by omega) (by omega)) c hc
+        · simp at hc; exact ⟨n % base, by have := Nat.mod_lt n (show 0 < base by omega); omega, hc⟩
+  have hne : natToBase base n ≠ [] := (C11.natToBase_spec base hb n).1
+  refine ⟨hne, ?_, ?_⟩
+  · intro c r h
+    obtain ⟨d, hd, rfl⟩ := hmem c (by rw [h]; simp)
+    exact digitChar_plain d hd
+  · intro i c h
+    obtain ⟨d, hd, rfl⟩ := hmem c (by rw [h]; simp)
+    exact ⟨(digitChar_plain d hd).1, (digitChar_plain d hd).2.1⟩
+
+/-- **Write / read round trip of one integer value**, in every base 2..36 and every bit size the
+    value fits: the line the writer emits for `key = <digits>` reads back as that key with those
+    digits, and the digits parse back to the value. -/
+theorem uint_value_round_trip (E : Env) (file : Bytes) (f : IniFile) (cur name : Bytes) (n base bits v : Nat)
+    (hk : IniKeyOK name) (hb : 2 ≤ base ∧ base ≤ 36) (hv : v < 2 ^ bits) :
+    readIniLine file (f, cur) n (writeOption E name false [] (natToBase base v) false false).dropLast =
+        .ok (iniAddEntry f cur ⟨name, natToBase base v, false, n⟩, cur) ∧
+    parseUint (natToBase base v) (base : Int) bits = .ok v := by
+  refine ⟨?_, C11.parseUint_format base bits v hb hv⟩
+  have hpe := natToBase_plainEnds base hb v
+  unfold writeOption
+  simp only [Bool.false_and, Bool.or_self, Bool.false_eq_true, if_false, List.nil_append]
+  have hne := hpe.ne
+  simp only [ne_eq, hne, not_false_eq_true, if_true, not_true_eq_false]
+  rw [if_neg (fun h => h)]
+  have hline : (name ++ B " =" ++ (B " " ++ natToBase base v) ++ [0x0A]).dropLast = name ++ B " = " ++ natToBase base v := by
+    rw [List.dropLast_concat]; simp
+  rw [hline]
+  exact plain_value_line_reads_back file f cur name _ n hk hpe
+
+theorem intToBase_plainEnds (base : Nat) (hb : 2 ≤ base ∧ base ≤ 36) (v : Int) : PlainEnds (intToBase base v) := by
+  have hp := natToBase_plainEnds base hb v.natAbs
+  unfold intToBase
+  split
+  · refine ⟨by simp, ?_, ?_⟩
+    · intro c r h
+      have : c = 0x2D := by simp at h; exact h.1.symm
+      subst this; decide
+    · intro i c h
+      cases i with
+      | nil => simp at h; exact absurd h.2 hp.ne
+      | cons x i' =>
+        simp at h
+        exact hp.last i' c h.2
+  · exact hp
+
+/-- the same for a signed value, sign included: `key = -<digits>` reads back as written and parses
+    back to the value, in every base 2..36 and every bit size whose range holds it. -/
+theorem int_value_round_trip (E : Env) (file : Bytes) (f : IniFile) (cur name : Bytes) (n base bits : Nat) (v : Int)
+    (hk : IniKeyOK name) (hb : 2 ≤ base ∧ base ≤ 36) (hbits : 1 ≤ bits)
+    (hlo : -(2 ^ (bits - 1) : Int) ≤ v) (hhi : v < 2 ^ (bits - 1)) :
+    readIniLine file (f, cur) n (writeOption E name false [] (intToBase base v) false false).dropLast =
+        .ok (iniAddEntry f cur ⟨name, intToBase base v, false, n⟩, cur) ∧
+    parseInt (intToBase base v) (base : Int) bits = .ok v := by
+  refine ⟨?_, C11.parseInt_format base bits v hb hbits hlo hhi⟩
+  have hpe := intToBase_plainEnds base hb v
+  unfold writeOption
+  simp only [Bool.false_and, Bool.or_self, Bool.false_eq_true, if_false, List.nil_append]
+  have hne := hpe.ne
+  simp only [ne_eq, hne, not_false_eq_true, if_true, not_true_eq_false]
+  rw [if_neg (fun h => h)]
+  have hline : (name ++ B " =" ++ (B " " ++ intToBase base v) ++ [0x0A]).dropLast = name ++ B " = " ++ intToBase base v := by
+    rw [List.dropLast_concat]; simp
+  rw [hline]
+  exact plain_value_line_reads_back file f cur name _ n hk hpe
 end GoFlags.C12
